@@ -62,6 +62,7 @@ type Database struct {
 	header      *header
 	btreeCache  *btreeCache // table and index page cache
 	objectCache *objectCache
+	walk        treeWalk // interior pages seen by the running tree traversal
 }
 
 // OpenFile opens a .sqlite file. This is the main entry point.
@@ -283,6 +284,7 @@ func (db *Database) master() ([]sqliteMaster, error) {
 	}
 
 	var objects []sqliteMaster
+	defer db.startWalk()()
 	_, err = master.Iter(maxRecursion, db, func(rowid int64, pl cellPayload) (bool, error) {
 		c, err := addOverflow(db, pl)
 		if err != nil {
@@ -356,6 +358,63 @@ func (db *Database) openPage(page int) (interface{}, error) {
 		db.btreeCache.set(page, p)
 	}
 	return p, err
+}
+
+// A treeWalk remembers which interior pages a single tree traversal has
+// descended into. In a well-formed file every page has exactly one parent;
+// reaching an interior page a second time means the file is corrupt. Without
+// this check a small crafted file, in which every child pointer of a level
+// leads to the same page of the next level, makes a scan do fan-out^depth work
+// without ever exceeding maxRecursion.
+type treeWalk map[int]struct{}
+
+// startWalk begins a tree traversal. The returned function ends it. Traversals
+// nest: callbacks start lookups in other trees.
+func (db *Database) startWalk() func() {
+	prev := db.walk
+	db.walk = treeWalk{}
+	return func() { db.walk = prev }
+}
+
+// descend notes that the running traversal goes into interior page n.
+func (db *Database) descend(n int) error {
+	if db.walk == nil {
+		return nil
+	}
+	if _, ok := db.walk[n]; ok {
+		// the error a page which is its own ancestor ends in anyway
+		return ErrRecursion
+	}
+	db.walk[n] = struct{}{}
+	return nil
+}
+
+// openTableChild opens a child page of an interior table page.
+func (db *Database) openTableChild(page int) (tableBtree, error) {
+	tb, err := db.openTable(page)
+	if err != nil {
+		return nil, err
+	}
+	if _, ok := tb.(*tableInterior); ok {
+		if err := db.descend(page); err != nil {
+			return nil, err
+		}
+	}
+	return tb, nil
+}
+
+// openIndexChild opens a child page of an interior index page.
+func (db *Database) openIndexChild(page int) (indexBtree, error) {
+	tb, err := db.openIndex(page)
+	if err != nil {
+		return nil, err
+	}
+	if _, ok := tb.(*indexInterior); ok {
+		if err := db.descend(page); err != nil {
+			return nil, err
+		}
+	}
+	return tb, nil
 }
 
 func (db *Database) openTable(page int) (tableBtree, error) {
